@@ -261,8 +261,10 @@ class Verdict:
 
     def add(self, key, case, what=""):
         """key: the finding key computed by the validating spec for this violation."""
-        if key in self.open:
-            self.known_hits.setdefault(key, []).append(case)
+        # the same clause and shape observed on a call the generator issued itself (EV) is the same finding
+        base = key[3:] if key.startswith("EV:") else key
+        if key in self.open or base in self.open:
+            self.known_hits.setdefault(key if key in self.open else base, []).append(case)
         else:
             self.violations.append({"key": key, "what": what, "case": case})
 
